@@ -677,3 +677,17 @@ Definition info_of_hello (h : hello) : info :=
   | [] => set_versions i (supported_versions_from_max (h_legacy_version h))
   | _ :: _ => i
   end.
+
+(* ---- successive evaluations on one connection lineage (tls matcher, tls handler, a later tls
+   matcher on the inner stream): MatchTLS.Match keeps nothing between calls except the two
+   replacer keys, which a later parsed hello overwrites; its verdict depends on the bytes in front
+   of it only ---- *)
+Definition tls_placeholders := option (list byte * N).
+Definition tls_rematch (subs : info -> bool) (st : tls_placeholders) (p : list byte)
+  : verdict * tls_placeholders :=
+  let r := tls_match subs p in
+  (r_verdict r,
+   match r_server_name r, r_version r with
+   | Some n, Some v => Some (n, v)
+   | _, _ => st
+   end).
